@@ -15,15 +15,19 @@ Variable set : T -> N -> fatv -> res T.
 Variable val : T -> N -> fatv.            (* what the store holds *)
 Variable okc : N -> Prop.                  (* addressable entries *)
 Variable okv : fatv -> Prop.               (* storable values *)
+Variable inv : T -> Prop.                  (* store invariant kept by [set] (byte-level stores: fixed slice geometry,
+                                              every image byte < 256); [fun _ => True] for the pure store *)
 
-Hypothesis get_val : forall t c, okc c -> get t c = Ok (val t c).
-Hypothesis set_ok : forall t c v, okc c -> okv v ->
-  exists t', set t c v = Ok t' /\ val t' c = v /\ forall c', c' <> c -> val t' c' = val t c'.
+(* [val] of an entry outside [okc] is unspecified: for the byte-level stores it decodes bytes beyond the first
+   table copy, which a mirrored write does change; hence the [okc c'] premise of the frame clause. *)
+Hypothesis get_val : forall t c, inv t -> okc c -> get t c = Ok (val t c).
+Hypothesis set_ok : forall t c v, inv t -> okc c -> okv v ->
+  exists t', set t c v = Ok t' /\ inv t' /\ val t' c = v /\ forall c', c' <> c -> okc c' -> val t' c' = val t c'.
 Hypothesis okv_free : okv Free.
 Hypothesis okv_eoc : okv Eoc.
 
 (* ------------------------------------------------------------ find_free *)
-Lemma find_free_from_spec t : forall n c,
+Lemma find_free_from_spec t (Hinv : inv t) : forall n c,
   (forall x, c <= x < c + N.of_nat n -> okc x) ->
   match find_free_from T get t c n with
   | Ok r => c <= r < c + N.of_nat n /\ val t r = Free /\ forall x, c <= x < r -> val t x <> Free
@@ -34,7 +38,7 @@ Lemma find_free_from_spec t : forall n c,
 Proof.
   induction n as [|n IH]; intros c Hokr; cbn [find_free_from].
   - split; [reflexivity|]. intros x Hx. lia.
-  - rewrite get_val by (apply Hokr; lia). cbn [bind].
+  - rewrite (get_val t c Hinv) by (apply Hokr; lia). cbn [bind].
     assert (forall x, c + 1 <= x < c + 1 + N.of_nat n -> okc x) as Hokr' by (intros x Hx; apply Hokr; lia).
     destruct (val t c) eqn:Ec.
     + split; [lia|]. split; [exact Ec|]. intros x Hx. lia.
@@ -58,7 +62,7 @@ Proof.
       * exact IH. * exact IH.
 Qed.
 
-Lemma find_free_spec t s e :
+Lemma find_free_spec t s e : inv t ->
   (forall x, s <= x < e -> okc x) ->
   match find_free T get t s e with
   | Ok r => s <= r < e /\ val t r = Free /\ forall x, s <= x < r -> val t x <> Free
@@ -67,8 +71,8 @@ Lemma find_free_spec t s e :
   | OutOfFuel => False
   end.
 Proof.
-  intros Hokr. unfold find_free.
-  pose proof (find_free_from_spec t (N.to_nat (e - s)) s ltac:(intros x Hx; apply Hokr; lia)) as H.
+  intros Hinv Hokr. unfold find_free.
+  pose proof (find_free_from_spec t Hinv (N.to_nat (e - s)) s ltac:(intros x Hx; apply Hokr; lia)) as H.
   destruct (find_free_from T get t s (N.to_nat (e - s))) as [r|er| |]; try exact H.
   - destruct H as (Hr & Hf & Hb). split; [lia|]. split; assumption.
   - destruct H as (He & Hb). split; [exact He|]. intros x Hx. apply Hb. lia.
@@ -77,7 +81,7 @@ Qed.
 (* ------------------------------------------------------------ alloc_cluster *)
 Definition hint_ok (hint : option N) : Prop := match hint with Some n => 2 <= n | None => True end.
 
-Lemma alloc_find t hint total :
+Lemma alloc_find t hint total : inv t ->
   hint_ok hint -> (forall x, 2 <= x < total + 2 -> okc x) ->
   let end_ := total + 2 in
   let start := match hint with Some n => if n <? end_ then n else 2 | None => 2 end in
@@ -94,16 +98,16 @@ Lemma alloc_find t hint total :
   | OutOfFuel => False
   end.
 Proof.
-  intros Hh Hokc end_ start.
+  intros Hinv Hh Hokc end_ start.
   assert (2 <= start /\ (start < end_ \/ start = 2)) as [Hs2 Hse].
   { unfold start, end_. destruct hint as [n|]; [|lia]. cbn [hint_ok] in Hh.
     destruct (n <? total + 2) eqn:E; [apply N.ltb_lt in E; lia|lia]. }
-  pose proof (find_free_spec t start end_ ltac:(intros x Hx; apply Hokc; unfold end_ in *; lia)) as H1.
+  pose proof (find_free_spec t start end_ Hinv ltac:(intros x Hx; apply Hokc; unfold end_ in *; lia)) as H1.
   destruct (find_free T get t start end_) as [r|e| |]; try exact H1.
   - destruct H1 as (Hr & Hf & _). split; [unfold end_ in *; lia|exact Hf].
   - destruct H1 as (-> & Hb1). destruct (2 <? start) eqn:E.
     + apply N.ltb_lt in E.
-      pose proof (find_free_spec t 2 start ltac:(intros x Hx; apply Hokc; unfold end_ in *; lia)) as H2.
+      pose proof (find_free_spec t 2 start Hinv ltac:(intros x Hx; apply Hokc; unfold end_ in *; lia)) as H2.
       destruct (find_free T get t 2 start) as [r|e| |]; try exact H2.
       * destruct H2 as (Hr & Hf & _). split; [unfold end_ in *; lia|exact Hf].
       * destruct H2 as (-> & Hb2). split; [reflexivity|]. intros x Hx.
@@ -114,71 +118,75 @@ Qed.
 (* Success: the returned cluster is a valid data cluster that was free; afterwards it ends a chain, the
    previous cluster (if any) links to it, and no other entry changed. *)
 Theorem alloc_ok t prev hint total t' c :
+  inv t ->
   hint_ok hint ->
   (forall x, 2 <= x < total + 2 -> okc x) ->
   (match prev with Some p => okc p /\ (forall n, 2 <= n < total + 2 -> okv (Data n)) | None => True end) ->
   alloc_cluster T get set t prev hint total = Ok (t', c) ->
-  2 <= c < total + 2 /\ val t c = Free /\
+  inv t' /\ 2 <= c < total + 2 /\ val t c = Free /\
   (match prev with
-   | Some p => val t' p = Data c /\ (p <> c -> val t' c = Eoc) /\ forall x, x <> c -> x <> p -> val t' x = val t x
-   | None => val t' c = Eoc /\ forall x, x <> c -> val t' x = val t x
+   | Some p => val t' p = Data c /\ (p <> c -> val t' c = Eoc) /\
+               forall x, x <> c -> x <> p -> okc x -> val t' x = val t x
+   | None => val t' c = Eoc /\ forall x, x <> c -> okc x -> val t' x = val t x
    end).
 Proof.
-  intros Hh Hokc Hprev. unfold alloc_cluster, RESERVED_FAT_ENTRIES.
-  pose proof (alloc_find t hint total Hh Hokc) as Hf. cbv zeta in Hf.
+  intros Hinv Hh Hokc Hprev. unfold alloc_cluster, RESERVED_FAT_ENTRIES.
+  pose proof (alloc_find t hint total Hinv Hh Hokc) as Hf. cbv zeta in Hf.
   destruct (match find_free T get t _ (total + 2) with Ok n => Ok n | Err ENotEnoughSpace => _ | Err e => Err e
             | Panic => Panic | OutOfFuel => OutOfFuel end) as [c0|e| |]; cbn [bind]; try discriminate.
   destruct Hf as (Hc0 & Hfree).
-  destruct (set_ok t c0 Eoc (Hokc c0 Hc0) okv_eoc) as (t1 & Hs1 & Hv1 & Hfr1).
+  destruct (set_ok t c0 Eoc Hinv (Hokc c0 Hc0) okv_eoc) as (t1 & Hs1 & Hi1 & Hv1 & Hfr1).
   rewrite Hs1. cbn [bind].
   destruct prev as [p|].
   - destruct Hprev as (Hokp & Hokd).
-    destruct (set_ok t1 p (Data c0) Hokp (Hokd c0 Hc0)) as (t2 & Hs2 & Hv2 & Hfr2).
+    destruct (set_ok t1 p (Data c0) Hi1 Hokp (Hokd c0 Hc0)) as (t2 & Hs2 & Hi2 & Hv2 & Hfr2).
     rewrite Hs2. cbn [bind]. intros E. injection E as <- <-.
-    split; [exact Hc0|]. split; [exact Hfree|]. split; [exact Hv2|]. split.
-    + intros Hne. rewrite Hfr2 by (intro; subst; apply Hne; reflexivity). exact Hv1.
-    + intros x Hx1 Hx2. rewrite Hfr2 by exact Hx2. apply Hfr1. exact Hx1.
+    split; [exact Hi2|]. split; [exact Hc0|]. split; [exact Hfree|]. split; [exact Hv2|]. split.
+    + intros Hne. rewrite Hfr2; [exact Hv1|intro; subst; apply Hne; reflexivity|exact (Hokc c0 Hc0)].
+    + intros x Hx1 Hx2 Hxo. rewrite Hfr2; [|exact Hx2|exact Hxo]. apply Hfr1; assumption.
   - cbn [bind]. intros E. injection E as <- <-.
-    split; [exact Hc0|]. split; [exact Hfree|]. split; [exact Hv1|exact Hfr1].
+    split; [exact Hi1|]. split; [exact Hc0|]. split; [exact Hfree|]. split; [exact Hv1|exact Hfr1].
 Qed.
 
 (* Failure (fault-free store): only NotEnoughSpace, and only when no data cluster is free: the two scans
    [start,end) and [2,start) together cover [2,end). *)
 Theorem alloc_err t prev hint total e :
+  inv t ->
   hint_ok hint ->
   (forall x, 2 <= x < total + 2 -> okc x) ->
   (match prev with Some p => okc p /\ (forall n, 2 <= n < total + 2 -> okv (Data n)) | None => True end) ->
   alloc_cluster T get set t prev hint total = Err e ->
   e = ENotEnoughSpace /\ forall x, 2 <= x < total + 2 -> val t x <> Free.
 Proof.
-  intros Hh Hokc Hprev. unfold alloc_cluster, RESERVED_FAT_ENTRIES.
-  pose proof (alloc_find t hint total Hh Hokc) as Hf. cbv zeta in Hf.
+  intros Hinv Hh Hokc Hprev. unfold alloc_cluster, RESERVED_FAT_ENTRIES.
+  pose proof (alloc_find t hint total Hinv Hh Hokc) as Hf. cbv zeta in Hf.
   destruct (match find_free T get t _ (total + 2) with Ok n => Ok n | Err ENotEnoughSpace => _ | Err e => Err e
             | Panic => Panic | OutOfFuel => OutOfFuel end) as [c0|e0| |]; cbn [bind]; try discriminate.
   - destruct Hf as (Hc0 & Hfree).
-    destruct (set_ok t c0 Eoc (Hokc c0 Hc0) okv_eoc) as (t1 & Hs1 & Hv1 & Hfr1).
+    destruct (set_ok t c0 Eoc Hinv (Hokc c0 Hc0) okv_eoc) as (t1 & Hs1 & Hi1 & Hv1 & Hfr1).
     rewrite Hs1. cbn [bind]. destruct prev as [p|]; cbn [bind]; [|discriminate].
     destruct Hprev as (Hokp & Hokd).
-    destruct (set_ok t1 p (Data c0) Hokp (Hokd c0 Hc0)) as (t2 & Hs2 & _).
+    destruct (set_ok t1 p (Data c0) Hi1 Hokp (Hokd c0 Hc0)) as (t2 & Hs2 & _).
     rewrite Hs2. cbn [bind]. discriminate.
   - intros E. injection E as <-. exact Hf.
 Qed.
 
 Theorem alloc_no_panic t prev hint total :
+  inv t ->
   hint_ok hint ->
   (forall x, 2 <= x < total + 2 -> okc x) ->
   (match prev with Some p => okc p /\ (forall n, 2 <= n < total + 2 -> okv (Data n)) | None => True end) ->
   alloc_cluster T get set t prev hint total <> Panic /\ alloc_cluster T get set t prev hint total <> OutOfFuel.
 Proof.
-  intros Hh Hokc Hprev. unfold alloc_cluster, RESERVED_FAT_ENTRIES.
-  pose proof (alloc_find t hint total Hh Hokc) as Hf. cbv zeta in Hf.
+  intros Hinv Hh Hokc Hprev. unfold alloc_cluster, RESERVED_FAT_ENTRIES.
+  pose proof (alloc_find t hint total Hinv Hh Hokc) as Hf. cbv zeta in Hf.
   destruct (match find_free T get t _ (total + 2) with Ok n => Ok n | Err ENotEnoughSpace => _ | Err e => Err e
             | Panic => Panic | OutOfFuel => OutOfFuel end) as [c0|e0| |]; cbn [bind]; try (split; discriminate); try contradiction.
   destruct Hf as (Hc0 & Hfree).
-  destruct (set_ok t c0 Eoc (Hokc c0 Hc0) okv_eoc) as (t1 & Hs1 & _).
+  destruct (set_ok t c0 Eoc Hinv (Hokc c0 Hc0) okv_eoc) as (t1 & Hs1 & Hi1 & _).
   rewrite Hs1. cbn [bind]. destruct prev as [p|]; cbn [bind]; [|split; discriminate].
   destruct Hprev as (Hokp & Hokd).
-  destruct (set_ok t1 p (Data c0) Hokp (Hokd c0 Hc0)) as (t2 & Hs2 & _).
+  destruct (set_ok t1 p (Data c0) Hi1 Hokp (Hokd c0 Hc0)) as (t2 & Hs2 & _).
   rewrite Hs2. cbn [bind]. split; discriminate.
 Qed.
 
@@ -200,72 +208,76 @@ Proof.
     + apply IH. intros x Hx. apply Hf. right. exact Hx.
 Qed.
 
-Lemma get_next_val t c : okc c -> get_next T get t c = Ok (match val t c with Data n => Some n | _ => None end).
-Proof. intros H. unfold get_next. rewrite get_val by exact H. reflexivity. Qed.
+Lemma get_next_val t c : inv t -> okc c -> get_next T get t c = Ok (match val t c with Data n => Some n | _ => None end).
+Proof. intros Hinv H. unfold get_next. rewrite (get_val t c Hinv H). reflexivity. Qed.
 
 (* ClusterIterator::free releases exactly the clusters of the chain, reports their number, touches nothing else *)
 Theorem ci_free_spec : forall l t c fuel,
-  chain t c l -> NoDup l -> (forall x, In x l -> okc x) -> (length l < fuel)%nat ->
-  exists t', ci_free T get set t (ci_new c) fuel = Ok (t', N.of_nat (length l)) /\
-             (forall x, In x l -> val t' x = Free) /\ (forall x, ~ In x l -> val t' x = val t x).
+  inv t -> chain t c l -> NoDup l -> (forall x, In x l -> okc x) -> (length l < fuel)%nat ->
+  exists t', ci_free T get set t (ci_new c) fuel = Ok (t', N.of_nat (length l)) /\ inv t' /\
+             (forall x, In x l -> val t' x = Free) /\ (forall x, ~ In x l -> okc x -> val t' x = val t x).
 Proof.
-  induction l as [|a l IH]; intros t c fuel Hc Hnd Hok Hfuel.
+  induction l as [|a l IH]; intros t c fuel Hinv Hc Hnd Hok Hfuel.
   - inversion Hc.
   - destruct fuel as [|k]; [cbn [length] in Hfuel; lia|].
     assert (c = a) as -> by (inversion Hc; reflexivity).
     unfold ci_new. cbn [ci_free ci_cluster]. unfold ci_next. cbn [ci_err ci_cluster].
-    rewrite get_next_val by (apply Hok; left; reflexivity).
+    rewrite (get_next_val t a Hinv) by (apply Hok; left; reflexivity).
     inversion Hc as [c0 Hn E1 E2|c0 n l0 Hv Hc' E1 E2]; subst.
     + (* last cluster *)
       assert ((match val t a with Data n => Some n | _ => None end) = None) as ->.
       { destruct (val t a) eqn:E; try reflexivity. exfalso. eapply Hn. reflexivity. }
-      destruct (set_ok t a Free (Hok a (or_introl eq_refl)) okv_free) as (t1 & Hs & Hv1 & Hfr).
+      destruct (set_ok t a Free Hinv (Hok a (or_introl eq_refl)) okv_free) as (t1 & Hs & Hi1 & Hv1 & Hfr).
       rewrite Hs. cbn [bind]. destruct k as [|k]; [cbn [length] in Hfuel; lia|].
-      cbn [ci_free ci_cluster bind]. exists t1. split; [reflexivity|]. split.
+      cbn [ci_free ci_cluster bind]. exists t1. split; [reflexivity|]. split; [exact Hi1|]. split.
       * intros x [<-|[]]. exact Hv1.
-      * intros x Hx. apply Hfr. intro; subst. apply Hx. left; reflexivity.
+      * intros x Hx Hxo. apply Hfr; [|exact Hxo]. intro; subst. apply Hx. left; reflexivity.
     + rewrite Hv.
-      destruct (set_ok t a Free (Hok a (or_introl eq_refl)) okv_free) as (t1 & Hs & Hv1 & Hfr).
+      destruct (set_ok t a Free Hinv (Hok a (or_introl eq_refl)) okv_free) as (t1 & Hs & Hi1 & Hv1 & Hfr).
       rewrite Hs. cbn [bind].
       inversion Hnd as [|? ? Hnotin Hnd']; subst.
       assert (chain t1 n l) as Hc1.
-      { eapply chain_frame; [exact Hc'|]. intros x Hx. apply Hfr. intro; subst. contradiction. }
-      destruct (IH t1 n k Hc1 Hnd' (fun x Hx => Hok x (or_intror Hx))) as (t2 & Hr & Hall & Hfr2).
+      { eapply chain_frame; [exact Hc'|]. intros x Hx. apply Hfr; [|apply Hok; right; exact Hx].
+        intro; subst. contradiction. }
+      destruct (IH t1 n k Hi1 Hc1 Hnd' (fun x Hx => Hok x (or_intror Hx))) as (t2 & Hr & Hi2 & Hall & Hfr2).
       { cbn [length] in Hfuel. lia. }
       unfold ci_new in Hr. rewrite Hr. cbn [bind]. exists t2. split.
       * f_equal. f_equal. cbn [length]. lia.
-      * split.
-        -- intros x [<-|Hx]; [|apply Hall; exact Hx]. rewrite Hfr2 by exact Hnotin. exact Hv1.
-        -- intros x Hx. rewrite Hfr2 by (intro; apply Hx; right; assumption).
-           apply Hfr. intro; subst. apply Hx. left; reflexivity.
+      * split; [exact Hi2|]. split.
+        -- intros x [<-|Hx]; [|apply Hall; exact Hx].
+           rewrite Hfr2; [exact Hv1|exact Hnotin|apply Hok; left; reflexivity].
+        -- intros x Hx Hxo. rewrite Hfr2; [|intro; apply Hx; right; assumption|exact Hxo].
+           apply Hfr; [|exact Hxo]. intro; subst. apply Hx. left; reflexivity.
 Qed.
 
 (* ClusterIterator::truncate keeps the first cluster as the new end of the chain and frees the rest *)
 Theorem ci_truncate_spec : forall l t c fuel,
-  chain t c (c :: l) -> NoDup (c :: l) -> (forall x, In x (c :: l) -> okc x) -> (length l < fuel)%nat ->
-  exists t', ci_truncate T get set t (ci_new c) fuel = Ok (t', N.of_nat (length l)) /\
-             val t' c = Eoc /\ (forall x, In x l -> val t' x = Free) /\ (forall x, ~ In x (c :: l) -> val t' x = val t x).
+  inv t -> chain t c (c :: l) -> NoDup (c :: l) -> (forall x, In x (c :: l) -> okc x) -> (length l < fuel)%nat ->
+  exists t', ci_truncate T get set t (ci_new c) fuel = Ok (t', N.of_nat (length l)) /\ inv t' /\
+             val t' c = Eoc /\ (forall x, In x l -> val t' x = Free) /\
+             (forall x, ~ In x (c :: l) -> okc x -> val t' x = val t x).
 Proof.
-  intros l t c fuel Hc Hnd Hok Hfuel.
+  intros l t c fuel Hinv Hc Hnd Hok Hfuel.
   unfold ci_truncate, ci_new. cbn [ci_cluster]. unfold ci_next. cbn [ci_err ci_cluster].
-  rewrite get_next_val by (apply Hok; left; reflexivity).
+  rewrite (get_next_val t c Hinv) by (apply Hok; left; reflexivity).
   inversion Hnd as [|? ? Hnotin Hnd']; subst.
-  destruct (set_ok t c Eoc (Hok c (or_introl eq_refl)) okv_eoc) as (t1 & Hs & Hv1 & Hfr).
+  destruct (set_ok t c Eoc Hinv (Hok c (or_introl eq_refl)) okv_eoc) as (t1 & Hs & Hi1 & Hv1 & Hfr).
   inversion Hc as [c0 Hn E1 E2|c0 n l0 Hv Hc' E1 E2]; subst.
   - assert ((match val t c with Data n => Some n | _ => None end) = None) as ->.
     { destruct (val t c) eqn:E; try reflexivity. exfalso. eapply Hn. reflexivity. }
     rewrite Hs. cbn [bind]. destruct fuel as [|k]; [cbn [length] in Hfuel; lia|].
-    cbn [ci_free ci_cluster]. exists t1. split; [reflexivity|]. split; [exact Hv1|]. split.
+    cbn [ci_free ci_cluster]. exists t1. split; [reflexivity|]. split; [exact Hi1|]. split; [exact Hv1|]. split.
     + intros x [].
-    + intros x Hx. apply Hfr. intro; subst. apply Hx. left; reflexivity.
+    + intros x Hx Hxo. apply Hfr; [|exact Hxo]. intro; subst. apply Hx. left; reflexivity.
   - rewrite Hv. rewrite Hs. cbn [bind].
     assert (chain t1 n l) as Hc1.
-    { eapply chain_frame; [exact Hc'|]. intros x Hx. apply Hfr. intro; subst. contradiction. }
-    destruct (ci_free_spec l t1 n fuel Hc1 Hnd' (fun x Hx => Hok x (or_intror Hx)) Hfuel) as (t2 & Hr & Hall & Hfr2).
-    unfold ci_new in Hr. rewrite Hr. exists t2. split; [reflexivity|]. split.
-    + rewrite Hfr2 by exact Hnotin. exact Hv1.
-    + split; [exact Hall|]. intros x Hx. rewrite Hfr2 by (intro; apply Hx; right; assumption).
-      apply Hfr. intro; subst. apply Hx. left; reflexivity.
+    { eapply chain_frame; [exact Hc'|]. intros x Hx. apply Hfr; [|apply Hok; right; exact Hx].
+      intro; subst. contradiction. }
+    destruct (ci_free_spec l t1 n fuel Hi1 Hc1 Hnd' (fun x Hx => Hok x (or_intror Hx)) Hfuel) as (t2 & Hr & Hi2 & Hall & Hfr2).
+    unfold ci_new in Hr. rewrite Hr. exists t2. split; [reflexivity|]. split; [exact Hi2|]. split.
+    + rewrite Hfr2; [exact Hv1|exact Hnotin|apply Hok; left; reflexivity].
+    + split; [exact Hall|]. intros x Hx Hxo. rewrite Hfr2; [|intro; apply Hx; right; assumption|exact Hxo].
+      apply Hfr; [|exact Hxo]. intro; subst. apply Hx. left; reflexivity.
 Qed.
 
 (* ------------------------------------------------------------ counting free clusters *)
@@ -276,16 +288,16 @@ Fixpoint cnt (f : N -> fatv) (c : N) (n : nat) : N :=
 
 Definition count_spec (t : T) (c : N) (n : nat) : N := cnt (val t) c n.
 
-Theorem count_free_from_spec t : forall n c,
+Theorem count_free_from_spec t (Hinv : inv t) : forall n c,
   (forall x, c <= x < c + N.of_nat n -> okc x) -> count_free_from T get t c n = Ok (count_spec t c n).
 Proof.
   unfold count_spec. induction n as [|n IH]; intros c Hokr; cbn [count_free_from cnt]; [reflexivity|].
-  rewrite get_val by (apply Hokr; lia). cbn [bind]. rewrite IH by (intros x Hx; apply Hokr; lia). cbn [bind]. destruct (val t c); cbn [is_free]; rewrite ?N.add_0_l; reflexivity.
+  rewrite (get_val t c Hinv) by (apply Hokr; lia). cbn [bind]. rewrite IH by (intros x Hx; apply Hokr; lia). cbn [bind]. destruct (val t c); cbn [is_free]; rewrite ?N.add_0_l; reflexivity.
 Qed.
 
-Theorem count_free_spec t total :
+Theorem count_free_spec t total : inv t ->
   (forall x, 2 <= x < total + 2 -> okc x) -> count_free T get t total = Ok (count_spec t 2 (N.to_nat total)).
-Proof. intros H. apply count_free_from_spec. intros x Hx. apply H. lia. Qed.
+Proof. intros Hinv H. apply count_free_from_spec; [exact Hinv|]. intros x Hx. apply H. lia. Qed.
 
 Lemma cnt_le f : forall n c, cnt f c n <= N.of_nat n.
 Proof.
@@ -321,11 +333,11 @@ Qed.
 (* freeing a set of distinct, allocated entries inside the range raises the count by their number *)
 Lemma cnt_free_list f : forall l g n c,
   NoDup l -> (forall x, In x l -> c <= x < c + N.of_nat n /\ f x <> Free) ->
-  (forall x, In x l -> g x = Free) -> (forall x, ~ In x l -> g x = f x) ->
+  (forall x, In x l -> g x = Free) -> (forall x, c <= x < c + N.of_nat n -> ~ In x l -> g x = f x) ->
   cnt g c n = cnt f c n + N.of_nat (length l).
 Proof.
   induction l as [|a l IH]; intros g n c Hnd Hin Hfree Hfr.
-  - cbn [length]. rewrite N.add_0_r. apply cnt_ext_free. intros x _. rewrite Hfr by (intros []). reflexivity.
+  - cbn [length]. rewrite N.add_0_r. apply cnt_ext_free. intros x Hx. rewrite (Hfr x Hx) by (intros []). reflexivity.
   - inversion Hnd as [|? ? Hnotin Hnd']; subst.
     (* intermediate map: everything of l freed, a still as in f *)
     set (h := fun x => if x =? a then f a else g x).
@@ -333,8 +345,8 @@ Proof.
     { apply IH; [exact Hnd'| | |].
       - intros x Hx. apply Hin. right; exact Hx.
       - intros x Hx. unfold h. destruct (N.eqb_spec x a) as [->|]; [contradiction|]. apply Hfree. right; exact Hx.
-      - intros x Hx. unfold h. destruct (N.eqb_spec x a) as [->|Hne]; [reflexivity|].
-        apply Hfr. intros [<-|Hx']; [apply Hne; reflexivity|contradiction]. }
+      - intros x Hxr Hx. unfold h. destruct (N.eqb_spec x a) as [->|Hne]; [reflexivity|].
+        apply Hfr; [exact Hxr|]. intros [<-|Hx']; [apply Hne; reflexivity|contradiction]. }
     destruct (Hin a (or_introl eq_refl)) as (Hra & Hnf).
     pose proof (cnt_update h g a n c Hra) as Hu.
     assert (forall y, y <> a -> g y = h y) as Hgh.
@@ -358,24 +370,25 @@ Proof. unfold map_free. destruct (fi_free fi); reflexivity. Qed.
 (* allocation keeps the cached count exact, never underflows it, and leaves an in-range hint;
    it fails only with NotEnoughSpace and only when no data cluster is free *)
 Theorem fs_alloc_inv t fi prev total :
+  inv t ->
   fi_inv t fi total ->
   (forall x, 2 <= x < total + 2 -> okc x) ->
   (match prev with
    | Some p => okc p /\ (forall n, 2 <= n < total + 2 -> okv (Data n)) /\ val t p <> Free
    | None => True end) ->
   match fs_alloc T get set t fi prev total with
-  | Ok (t', fi', c) => fi_inv t' fi' total /\ 2 <= c < total + 2 /\ val t c = Free /\
+  | Ok (t', fi', c) => inv t' /\ fi_inv t' fi' total /\ 2 <= c < total + 2 /\ val t c = Free /\
                        (exists h, fi_next fi' = Some h /\ 2 <= h < total + 2)
   | Err e => e = ENotEnoughSpace /\ forall x, 2 <= x < total + 2 -> val t x <> Free
   | Panic => False
   | OutOfFuel => False
   end.
 Proof.
-  intros [Hcnt Hh] Hokc Hprev. unfold fs_alloc.
+  intros Hinv [Hcnt Hh] Hokc Hprev. unfold fs_alloc.
   assert (match prev with Some p => okc p /\ (forall n, 2 <= n < total + 2 -> okv (Data n)) | None => True end) as Hprev'.
   { destruct prev; [|exact I]. tauto. }
   destruct (alloc_cluster T get set t prev (fi_next fi) total) as [[t' c]|e| |] eqn:Ea; cbn [bind].
-  - destruct (alloc_ok t prev (fi_next fi) total t' c Hh Hokc Hprev' Ea) as (Hc & Hfree & Hpost).
+  - destruct (alloc_ok t prev (fi_next fi) total t' c Hinv Hh Hokc Hprev' Ea) as (Hi' & Hc & Hfree & Hpost).
     (* the count drops by exactly one *)
     assert (count_spec t' 2 (N.to_nat total) + 1 = count_spec t 2 (N.to_nat total)) as Hdrop.
     { unfold count_spec.
@@ -387,7 +400,8 @@ Proof.
         specialize (Hu Hy).
         assert (tm c = Eoc) as Htc by (unfold tm; rewrite N.eqb_refl; reflexivity).
         rewrite Htc, Hfree in Hu. cbn [is_free] in Hu. lia. }
-      rewrite <- H1. f_equal. apply cnt_ext_free. intros x _. unfold tm.
+      rewrite <- H1. f_equal. apply cnt_ext_free. intros x Hxr. unfold tm.
+      assert (okc x) as Hxo by (apply Hokc; lia).
       destruct prev as [p|].
       - destruct Hpost as (Hp & Hce & Hfr). destruct Hprev as (_ & _ & Hpnf).
         destruct (N.eq_dec p c) as [->|Hne]; [contradiction|].
@@ -403,40 +417,42 @@ Proof.
       * (* cached count 0 but a free cluster was found: impossible under the invariant *)
         exfalso. pose proof (cnt_pos (val t) c (N.to_nat total) 2 ltac:(lia) Hfree) as Hp.
         unfold count_spec in Hcnt. lia.
-      * split; [|split; [exact Hc|split; [exact Hfree|]]].
+      * split; [exact Hi'|]. split; [|split; [exact Hc|split; [exact Hfree|]]].
         -- split.
            ++ rewrite map_free_free. cbn [fi_free option_map]. f_equal. lia.
            ++ rewrite map_free_next. cbn [fi_next hint_ok].
               destruct (c + 1 <? total + RESERVED_FAT_ENTRIES); unfold RESERVED_FAT_ENTRIES; lia.
         -- rewrite map_free_next. cbn [fi_next]. eexists; split; [reflexivity|].
            unfold RESERVED_FAT_ENTRIES. destruct (c + 1 <? total + 2) eqn:E; [apply N.ltb_lt in E|]; lia.
-    + split; [|split; [exact Hc|split; [exact Hfree|]]].
+    + split; [exact Hi'|]. split; [|split; [exact Hc|split; [exact Hfree|]]].
       * split.
         -- rewrite map_free_free. cbn [fi_free option_map]. exact I.
         -- rewrite map_free_next. cbn [fi_next hint_ok].
            destruct (c + 1 <? total + RESERVED_FAT_ENTRIES); unfold RESERVED_FAT_ENTRIES; lia.
       * rewrite map_free_next. cbn [fi_next]. eexists; split; [reflexivity|].
         unfold RESERVED_FAT_ENTRIES. destruct (c + 1 <? total + 2) eqn:E; [apply N.ltb_lt in E|]; lia.
-  - exact (alloc_err t prev (fi_next fi) total e Hh Hokc Hprev' Ea).
-  - destruct (alloc_no_panic t prev (fi_next fi) total Hh Hokc Hprev') as [H _]. exact (H Ea).
-  - destruct (alloc_no_panic t prev (fi_next fi) total Hh Hokc Hprev') as [_ H]. exact (H Ea).
+  - exact (alloc_err t prev (fi_next fi) total e Hinv Hh Hokc Hprev' Ea).
+  - destruct (alloc_no_panic t prev (fi_next fi) total Hinv Hh Hokc Hprev') as [H _]. exact (H Ea).
+  - destruct (alloc_no_panic t prev (fi_next fi) total Hinv Hh Hokc Hprev') as [_ H]. exact (H Ea).
 Qed.
 
 (* removing a file: every cluster of its chain is given back and the cached count grows by exactly that many *)
 Theorem fs_free_chain_inv t fi total c l fuel :
+  inv t -> (forall x, 2 <= x < total + 2 -> okc x) ->
   fi_inv t fi total -> chain t c l -> NoDup l ->
   (forall x, In x l -> okc x /\ 2 <= x < total + 2 /\ val t x <> Free) -> (length l < fuel)%nat ->
-  exists t' fi', fs_free_chain T get set t fi c fuel = Ok (t', fi') /\ fi_inv t' fi' total /\
+  exists t' fi', fs_free_chain T get set t fi c fuel = Ok (t', fi') /\ inv t' /\ fi_inv t' fi' total /\
     count_spec t' 2 (N.to_nat total) = count_spec t 2 (N.to_nat total) + N.of_nat (length l) /\
-    (forall x, In x l -> val t' x = Free) /\ (forall x, ~ In x l -> val t' x = val t x).
+    (forall x, In x l -> val t' x = Free) /\ (forall x, ~ In x l -> okc x -> val t' x = val t x).
 Proof.
-  intros [Hcnt Hh] Hc Hnd Hin Hfuel. unfold fs_free_chain.
-  destruct (ci_free_spec l t c fuel Hc Hnd (fun x Hx => proj1 (Hin x Hx)) Hfuel) as (t' & Hr & Hall & Hfr).
+  intros Hinv Hokc [Hcnt Hh] Hc Hnd Hin Hfuel. unfold fs_free_chain.
+  destruct (ci_free_spec l t c fuel Hinv Hc Hnd (fun x Hx => proj1 (Hin x Hx)) Hfuel) as (t' & Hr & Hi' & Hall & Hfr).
   rewrite Hr. cbn [bind].
   assert (count_spec t' 2 (N.to_nat total) = count_spec t 2 (N.to_nat total) + N.of_nat (length l)) as Hgrow.
-  { unfold count_spec. apply cnt_free_list; [exact Hnd| |exact Hall|exact Hfr].
-    intros x Hx. destruct (Hin x Hx) as (_ & Hr2 & Hnf). split; [lia|exact Hnf]. }
-  eexists _, _. split; [reflexivity|]. split; [|split; [exact Hgrow|split; assumption]].
+  { unfold count_spec. apply cnt_free_list; [exact Hnd| |exact Hall|].
+    - intros x Hx. destruct (Hin x Hx) as (_ & Hr2 & Hnf). split; [lia|exact Hnf].
+    - intros x Hxr Hx. apply Hfr; [exact Hx|]. apply Hokc. lia. }
+  eexists _, _. split; [reflexivity|]. split; [exact Hi'|]. split; [|split; [exact Hgrow|split; assumption]].
   split.
   - rewrite map_free_free. destruct (fi_free fi) as [n0|]; cbn [option_map]; [|exact I]. lia.
   - rewrite map_free_next. exact Hh.
@@ -444,14 +460,16 @@ Qed.
 
 (* truncating at a cluster: it becomes the end of the chain, everything after it is given back *)
 Theorem fs_truncate_chain_inv t fi total c l fuel :
+  inv t -> (forall x, 2 <= x < total + 2 -> okc x) ->
   fi_inv t fi total -> chain t c (c :: l) -> NoDup (c :: l) ->
   (forall x, In x (c :: l) -> okc x /\ 2 <= x < total + 2 /\ val t x <> Free) -> (length l < fuel)%nat ->
-  exists t' fi', fs_truncate_chain T get set t fi c fuel = Ok (t', fi') /\ fi_inv t' fi' total /\
-    val t' c = Eoc /\ (forall x, In x l -> val t' x = Free) /\ (forall x, ~ In x (c :: l) -> val t' x = val t x) /\
+  exists t' fi', fs_truncate_chain T get set t fi c fuel = Ok (t', fi') /\ inv t' /\ fi_inv t' fi' total /\
+    val t' c = Eoc /\ (forall x, In x l -> val t' x = Free) /\
+    (forall x, ~ In x (c :: l) -> okc x -> val t' x = val t x) /\
     count_spec t' 2 (N.to_nat total) = count_spec t 2 (N.to_nat total) + N.of_nat (length l).
 Proof.
-  intros [Hcnt Hh] Hc Hnd Hin Hfuel. unfold fs_truncate_chain.
-  destruct (ci_truncate_spec l t c fuel Hc Hnd (fun x Hx => proj1 (Hin x Hx)) Hfuel) as (t' & Hr & Hce & Hall & Hfr).
+  intros Hinv Hokc [Hcnt Hh] Hc Hnd Hin Hfuel. unfold fs_truncate_chain.
+  destruct (ci_truncate_spec l t c fuel Hinv Hc Hnd (fun x Hx => proj1 (Hin x Hx)) Hfuel) as (t' & Hr & Hi' & Hce & Hall & Hfr).
   rewrite Hr. cbn [bind].
   inversion Hnd as [|? ? Hnotin Hnd']; subst.
   assert (count_spec t' 2 (N.to_nat total) = count_spec t 2 (N.to_nat total) + N.of_nat (length l)) as Hgrow.
@@ -464,9 +482,10 @@ Proof.
     rewrite <- H0. apply cnt_free_list; [exact Hnd'| |exact Hall|].
     - intros x Hx. destruct (Hin x (or_intror Hx)) as (_ & Hr2 & Hnf). split; [lia|].
       unfold f0. destruct (N.eqb_spec x c) as [->|]; [discriminate|exact Hnf].
-    - intros x Hx. unfold f0. destruct (N.eqb_spec x c) as [->|Hne]; [exact Hce|].
-      apply Hfr. intros [<-|Hx']; [apply Hne; reflexivity|contradiction]. }
-  eexists _, _. split; [reflexivity|]. split; [|split; [exact Hce|split; [exact Hall|split; [exact Hfr|exact Hgrow]]]].
+    - intros x Hxr Hx. unfold f0. destruct (N.eqb_spec x c) as [->|Hne]; [exact Hce|].
+      apply Hfr; [|apply Hokc; lia]. intros [<-|Hx']; [apply Hne; reflexivity|contradiction]. }
+  eexists _, _. split; [reflexivity|]. split; [exact Hi'|].
+  split; [|split; [exact Hce|split; [exact Hall|split; [exact Hfr|exact Hgrow]]]].
   split.
   - rewrite map_free_free. destruct (fi_free fi) as [n0|]; cbn [option_map]; [|exact I]. lia.
   - rewrite map_free_next. exact Hh.
@@ -474,12 +493,12 @@ Qed.
 
 (* the statistics call reports exactly the number of free entries of the table, whatever path it takes *)
 Theorem fs_stats_exact t fi total :
-  fi_inv t fi total -> (forall x, 2 <= x < total + 2 -> okc x) ->
+  inv t -> fi_inv t fi total -> (forall x, 2 <= x < total + 2 -> okc x) ->
   exists fi', fs_stats T get t fi total = Ok (fi', count_spec t 2 (N.to_nat total)) /\ fi_inv t fi' total.
 Proof.
-  intros [Hcnt Hh] Hokc. unfold fs_stats. destruct (fi_free fi) as [n0|] eqn:Ef.
+  intros Hinv [Hcnt Hh] Hokc. unfold fs_stats. destruct (fi_free fi) as [n0|] eqn:Ef.
   - exists fi. split; [rewrite Hcnt; reflexivity|]. split; [rewrite Ef; exact Hcnt|exact Hh].
-  - rewrite count_free_spec by exact Hokc. cbn [bind]. eexists. split; [reflexivity|]. split; [reflexivity|exact Hh].
+  - rewrite (count_free_spec t total Hinv Hokc). cbn [bind]. eexists. split; [reflexivity|]. split; [reflexivity|exact Hh].
 Qed.
 
 End Laws.
